@@ -9,6 +9,8 @@ only = [a for a in sys.argv[1:] if "=" not in a]
 extra = dict(a.split("=") for a in sys.argv[1:] if "=" in a)
 def sh(*a, **k): return subprocess.run(a, capture_output=True, text=True, **k)
 assert sh("git", "-C", REPO, "status", "--porcelain").stdout.strip() == "", "repo dirty"
+if os.environ.get("SWEEP_PREFIX"):
+    only = [n for n in sorted(os.listdir(SEED)) if n.startswith(os.environ["SWEEP_PREFIX"])]
 for name in sorted(os.listdir(SEED)):
     if only and name not in only: continue
     d = os.path.join(SEED, name)
@@ -16,7 +18,7 @@ for name in sorted(os.listdir(SEED)):
     props = [meta["breaks"]] + [p for p in extra.get(name, "").split(",") if p]
     if sh("git", "-C", REPO, "apply", d + "/patch.diff").returncode != 0:
         print(name, "PATCH DOES NOT APPLY"); continue
-    res = {}
+    res = json.load(open(d + "/result.json")) if os.path.exists(d + "/result.json") and os.environ.get("SWEEP_MERGE") else {}
     try:
         for p in props:
             t = time.time()
